@@ -55,6 +55,7 @@ def rich_opts():
             for ub in (True, 'pid', 'lagr_pos', 'tagged', 'density', 'lagr_idx', ['lagr_idx', 'density']):
                 o.append(dict(cleaned=c, AB=ab, which=['pos', 'pid'], unpack_bits=ub))
             o.append(dict(cleaned=c, AB=ab, passthrough=True))
+            o.append(dict(cleaned=c, AB=ab, passthrough=True, fields=['id']))       # explicit raw column list: the index columns must still be found
             for path in ('file0', 'file_last', 'list', 'list_rev', 'list_tail', 'hinfo'):
                 o.append(dict(cleaned=c, AB=ab, path=path))
         o.append(dict(cleaned=c, subs=True))
@@ -319,7 +320,7 @@ def run(case):
             kw['unpack_bits'] = o['unpack_bits']
         if o.get('passthrough'):
             kw['passthrough'] = True
-            kw['fields'] = 'all'
+            kw['fields'] = o.get('fields', 'all')
         try:
             c = _ENV.load(path, **kw)
         except Exception as e:
